@@ -55,6 +55,10 @@ CHECKS.update({
     "C19": dict(technique="TLA+ spec Client.tla (client pointer, connect phases, pending disconnects, API gate) model-checked by TLC (NeverWedged, RefusedOnlyWhenBusy, OneLive, GateSound); stage-by-stage disturbance histories, API gate sweeps over the whole public surface and random multi-session histories executed on the real APIClient in the virtual-time loop; traces validated by TLC against TraceClient.tla", text="Design invariants model-checked over all histories of <= 3 connections; on the real client every row (pointer identity, state of every connection object, outcomes, writes of refused calls) must be a step of the specification, so a pointer left on a dead connection or a gate that lets a call through is a rejected trace.", design="§3.6, §6 C19", note="finish_connection without a successful start_connection is outside the domain; a start issued while an abandoned attempt is still unwinding may be refused. " + TB),
 })
 
+CHECKS.update({
+    "C13": dict(technique="TLA+ module Registry.tla over ProtoSchema.tla (generated at check time from the text of api.proto by an independent reader): TLC evaluates table equality, uniqueness/contiguity, positional lookup, descriptor agreement and the direction statements on a snapshot of the library's tables, on what a live connection decoded each id as, and on the types written/subscribed by every public API call in the simulator", text="Every statement of the property is a TLC-evaluated formula over the complete finite tables (exhaustive); direction is decided for the whole public API surface (introspected) plus scripted voice-assistant and peer-request follow-ups on the real client.", design="§3.9, §6 C13", note="TLC is used here as an evaluator of set equalities over finite tables; the .proto text reader is trusted for the subset of the language api.proto uses. " + TB),
+})
+
 NOT_YET = {}
 
 
